@@ -533,6 +533,7 @@ pub(crate) mod verif_local {
     /// The wrapped emitter of a probe session: counts what it is handed, prints nothing.
     struct CountingEmitter {
         shown: Arc<std::sync::atomic::AtomicU32>,
+        fallback_bundle: rustc_errors::LazyFallbackBundle,
     }
 
     impl Translate for CountingEmitter {
@@ -541,7 +542,7 @@ pub(crate) mod verif_local {
         }
 
         fn fallback_fluent_bundle(&self) -> &rustc_errors::FluentBundle {
-            panic!("the counting emitter does not translate");
+            &self.fallback_bundle
         }
     }
 
@@ -585,6 +586,10 @@ pub(crate) mod verif_local {
                 source_map: Arc::clone(&source_map),
                 emitter: Box::new(CountingEmitter {
                     shown: Arc::clone(&shown),
+                    fallback_bundle: rustc_errors::fallback_fluent_bundle(
+                        rustc_driver::DEFAULT_LOCALE_RESOURCES.to_vec(),
+                        false,
+                    ),
                 }),
                 ignore_path_set: IntoDynSyncSend(Arc::clone(&ignore_path_set)),
                 can_reset: Arc::clone(&can_reset_errors),
@@ -616,7 +621,6 @@ pub(crate) mod verif_local {
         pub(crate) fn emit(&self, level: DiagnosticLevel, span: Option<Span>) {
             #[allow(rustc::untranslatable_diagnostic)] // no translation needed for empty string
             let mut diag = DiagInner::new(level, "");
-            diag.messages.clear();
             if let Some(span) = span {
                 diag.span = rustc_errors::MultiSpan::from_span(span);
             }
